@@ -9,6 +9,8 @@ structure, optionally with a type re-registered in between) such that their arra
 the same name - locally tagged `struct entry {...} a[..]` with different bodies, a re-registered `entry`, the built-in
 int48/uint48 pair - under every length form (expression, null-terminated, EOF, fixed, 2-dimensional); every structure of
 the set is then held to the same laws as above (reference parser, dumps, size-mismatch refusal, model), in any order of use.
+For aligned structures ending in x[EOF] the dump's tail padding is read back as elements: known finding F30 (classified by its
+signature, printed as KNOWN-FINDING).
 """
 from __future__ import annotations
 
@@ -97,15 +99,12 @@ def check_case(eng, res, L, form, en, data, cfg, sigs):
             eng.report(f"a parsed array cannot be dumped: {d[1]}", cd, sigs)
         else:
             dumped = d[1]
-            if form == "eof" and L.align and T.fields["a"].offset is not None:
-                # an aligned structure that ends in x[EOF]: dumps appends the structure's tail padding after the array, which a
-                # parse reads as further elements by the definition of x[EOF] (recorded as finding F30 under C01/C02, where the
-                # round trip is the property). What C07 states is checked on the dump up to the end of the array.
-                dumped = dumped[: T.fields["a"].offset + obj._sizes.get("a", 0)]
-                res.feat("eof-aligned: parse-back on the dump without the tail padding")
+            # an aligned structure that ends in x[EOF]: dumps appends the structure's tail padding after the array, which a parse
+            # reads as further elements (known finding F30): classified by that signature, not excused
+            sigs_back = sigs + (["F30"] if (form == "eof" and L.align) else [])
             back, _ = real_parse(T, dumped + (b"" if form == "eof" else b"\x5a"))
             if back[0] != "ok" or not impl.same_val(want[1], back[1]) or back[2] != len(d[1]):
-                eng.report(f"dumps does not parse back to the same array (terminator / element boundaries): {str(back)[:200]}", cd, sigs)
+                eng.report(f"dumps does not parse back to the same array (terminator / element boundaries): {str(back)[:200]}", cd, sigs_back)
             eng.model_write(L, want[1], d, "array dumps", sigs)
         # a fixed-size array of non-character elements with another number of elements is refused
         if form in ("fixed", "multidim") and en not in ("char", "wchar", "uleb128", "ileb128", "dynstruct") and isinstance(obj.a, list) and T.fields["a"].type.size is not None:
@@ -134,7 +133,7 @@ def check_case(eng, res, L, form, en, data, cfg, sigs):
 def run_sets(env, eng, res, rnd):
     """definition sets: several structures in one cstruct instance whose (distinct) array element types share a name"""
     tier = env["tier"]
-    for _ in range(70 if tier == "quick" else 1500):
+    for _ in range(70 if tier == "quick" else 1000):
         plan = s3_sets.make_plan(rnd)
         for endian, align, compiled in itertools.product("<>", (False, True), (False, True)):
             if rnd.random() < (0.6 if tier == "quick" else 0.3):
@@ -195,5 +194,9 @@ def run(env) -> Result:
 
 def replay(body) -> int:
     print("replay:", body.get("what"))
-    print(body.get("case", {}).get("repro"), body.get("case", {}).get("data"))
+    case = body.get("case", {})
+    print(case.get("repro"))
+    for k, v in case.items():
+        if k not in ("repro", "definition"):
+            print(f"  {k}: {v}")
     return 0
